@@ -13,6 +13,46 @@ def yaml_of(r):
     return r.get("yaml") if r.get("status") == "ok" else json.dumps({k: r.get(k) for k in ("status", "phase", "kind", "span")})
 
 
+def cli_target_history(ctx, ps):
+    """the document oal-cli leaves in the target does not depend on what an earlier run left there: the same sources compiled
+    to a fresh target, to a target holding a longer document, to a target holding a shorter one, and twice in a row"""
+    import subprocess
+    ok, out = core.ensure_repo_bins()
+    if not ok:
+        ctx.broken.append("build of the binaries of /repo failed: " + out[-300:])
+        return
+    singles = [p for p in ps if len(p["mods"]) == 1][: (12 if ctx.thorough else 3)]
+    big = "".join("res /r%d on get -> <{ 'p%d num, 'q str }> :: <status=404, { 'why str }>;\n" % (i, i) for i in range(12))
+    small = "res / on get -> <>;\n"
+    for k, p in enumerate(singles):
+        src = p["mods"][p["main"]]
+        root = lspws.fresh_dir("c06_cli_%d" % k)
+
+        def run(text, target):
+            with open(os.path.join(root, "m.oal"), "w") as f:
+                f.write(text)
+            r = subprocess.run([core.CLI, "-m", "m.oal", "-t", target], cwd=root, capture_output=True, timeout=60)
+            try:
+                return r.returncode, open(os.path.join(root, target), "rb").read()
+            except OSError:
+                return r.returncode, None
+        rc0, fresh = run(src, "fresh.yaml")
+        ctx.cov["evaluations"] += 1
+        if rc0 != 0 or fresh is None:
+            continue
+        run(big, "after_long.yaml")
+        run(small, "after_short.yaml")
+        outs = {"after a longer document": run(src, "after_long.yaml")[1], "after a shorter document": run(src, "after_short.yaml")[1],
+                "over its own output": run(src, "fresh.yaml")[1]}
+        ctx.cov["evaluations"] += 5
+        for what, got in outs.items():
+            if got != fresh:
+                ctx.violation("the same sources leave a different document in the target depending on what an earlier run left there (%s)" % what,
+                              {"program": progs.source_of(p), "target_history": what}, "%d bytes" % len(fresh), "%s bytes" % (len(got) if got is not None else None))
+                return
+        ctx.count("cli_target_history_same")
+
+
 def check(ctx):
     ctx.proof = core.proof_stage("C06", thorough=ctx.thorough)
     ok, out = core.ensure_harness()
@@ -104,6 +144,8 @@ def check(ctx):
                 ctx.count("nontrivial")
         if i in (0, 3, 40):
             ctx.sample({"program": p["mods"][p["main"]][:300], "yaml_bytes": len(r0.get("yaml") or "")})
+    if not ctx.replay or (ctx.replay and "target_history" in json.load(open(ctx.replay)).get("input", {})):
+        cli_target_history(ctx, ps)
     ctx.cov["distinct_nontrivial"] = ctx.cov["distribution"].get("nontrivial", 0)
     ctx.cov["inventory"] = inventory.unordered_inventory()
     ctx.cov["rule"] = ("generated programs + corpus (examples maps, composed tags/enum sequences, rec inside applied functions); each compiled 3x in one process, "
